@@ -2,7 +2,7 @@
 is the layout's working directory (pypyr.config freezes cwd at import).
 
 stdin : {"builtin": <dir or null>, "subdir": <str or null>, "pre_syspath": [dirs],
-         "invoke": {"name":..., "loader":..., "py_dir":...}}
+         "invokes": [{"name":..., "loader":..., "py_dir":...}, ...]}   (run one after the other)
 stdout: one JSON object (raw observation; the parent process canonicalises the temp root)."""
 import json
 import os
@@ -27,18 +27,22 @@ def main():
     from pypyr import pipelinerunner
     from pypyr.errors import get_error_name
     import c19_probe
-    inv = spec['invoke']
     err = None
-    try:
-        pipelinerunner.run(inv['name'], loader=inv.get('loader'), py_dir=inv.get('py_dir'))
-    except Exception as e:   # the observation
-        name = get_error_name(e)
-        if name == 'pypyr.errors.PyModuleNotFoundError':
-            cause = e.__cause__
-            msg = getattr(cause, 'name', None) or str(e)
-        else:
-            msg = str(e)
-        err = [name, msg]
+    invs = spec['invokes']
+    for i, inv in enumerate(invs):
+        err = None
+        try:
+            pipelinerunner.run(inv['name'], loader=inv.get('loader'), py_dir=inv.get('py_dir'))
+        except Exception as e:   # the observation
+            name = get_error_name(e)
+            if name == 'pypyr.errors.PyModuleNotFoundError':
+                cause = e.__cause__
+                msg = getattr(cause, 'name', None) or str(e)
+            else:
+                msg = str(e)
+            err = [name, msg]
+        if i + 1 < len(invs):     # marker between consecutive root runs of this process
+            c19_probe.TRACE.append(['run-ok'] if err is None else ['run-err'] + err)
     out['trace'] = c19_probe.TRACE
     out['err'] = err
     out['syspath_added'] = [p for p in sys.path if p not in before]
